@@ -6,8 +6,8 @@ change, the complete suite passes with the change. meta.json = the agent's descr
 we ran and which of our checks caught it."""
 import glob, json, os, re, shutil, sys
 kept = 0
-for sd in sorted(glob.glob('/tmp/wt-C*/seed/*/') + glob.glob('/tmp/w2-C*/seed/*/') + glob.glob('/tmp/w3-*/seed/*/') + glob.glob('/tmp/w5-*/seed/*/') + glob.glob('/tmp/w6-*/seed/*/')):
-    m3 = re.match(r'/tmp/w(3|5|6)-(\d+)/seed/(\d+)/', sd)
+for sd in sorted(glob.glob('/tmp/wt-C*/seed/*/') + glob.glob('/tmp/w2-C*/seed/*/') + glob.glob('/tmp/w3-*/seed/*/') + glob.glob('/tmp/w5-*/seed/*/') + glob.glob('/tmp/w6-*/seed/*/') + glob.glob('/tmp/w7-*/seed/*/')):
+    m3 = re.match(r'/tmp/w(3|5|6|7)-(\d+)/seed/(\d+)/', sd)
     if m3:
         try:
             prop3 = json.load(open(sd + 'meta.json')).get('property', 'C01')
@@ -17,7 +17,7 @@ for sd in sorted(glob.glob('/tmp/wt-C*/seed/*/') + glob.glob('/tmp/w2-C*/seed/*/
             def group(self, i):
                 return {1: 'w' + m3.group(1), 2: prop3, 3: m3.group(3)}[i]
         m = M()
-        sid = f"R{ {'3': 3, '5': 4, '6': 5}[m3.group(1)] }-{m3.group(2)}-{m3.group(3)}"
+        sid = f"R{ {'3': 3, '5': 4, '6': 5, '7': 6}[m3.group(1)] }-{m3.group(2)}-{m3.group(3)}"
     else:
         m = re.match(r'/tmp/(wt|w2)-(C\d+)/seed/(\d+)/', sd)
         k = int(m.group(3)) + (2 if m.group(1) == 'w2' else 0)
@@ -51,7 +51,7 @@ for sd in sorted(glob.glob('/tmp/wt-C*/seed/*/') + glob.glob('/tmp/w2-C*/seed/*/
     except Exception as e:
         meta = {"property": m.group(2), "summary": "(agent meta.json unreadable)"}
     meta['property'] = m.group(2)
-    meta['round'] = {'w2': 2, 'w3': 3, 'w5': 4, 'w6': 5}.get(m.group(1), 1)
+    meta['round'] = {'w2': 2, 'w3': 3, 'w5': 4, 'w6': 5, 'w7': 6}.get(m.group(1), 1)
     meta['confirmed_by_us'] = {
         "how": "tools/seedverify.sh in a scratch clone of /repo: demo.rs copied to tests/seed_demo.rs, run with and without patch.diff; then the complete suite with the patch",
         "demo_on_pristine_tree": "passes",
